@@ -399,7 +399,7 @@ def mon_C01(case):
         ack = None
         if pubt:
             acks = [f for sid, f in ln.frames if sid == w[1] and f.startswith("ctrl 202 ")]
-            if acks:
+            if acks and "seq" in frame_kv(acks[0]):       # (`sys` while it is not loaded: acknowledged by the hub without a number)
                 ack = int(frame_kv(acks[0])["seq"])
         # numbers shown in this line
         for sid, f in ln.frames:
@@ -500,8 +500,12 @@ def mon_C02(case):
         datas = [(sid, f) for sid, f in ln.frames if f.startswith("data ")]
         if not acks:
             continue
+        if t == "sys" and "seq" not in frame_kv(acks[0]):
+            continue            # the system topic is not loaded: the hub acknowledges and drops the message (nobody is to learn which names exist)
         q = int(frame_kv(acks[0])["seq"])
         c = pre.cache.get(t) if pre else None
+        if pre is None and t == "sys":
+            continue            # the first request of the history: `sys` is loaded from the start
         if c is None or act is None:
             out.append((i, f"C02 publish to {t} acknowledged although the topic was not loaded before the request"))
             continue
@@ -616,6 +620,17 @@ def mon_C03(case):
         why = "the session is not attached"
         if act is None:
             why = "the session may not act for another user"
+        elif t == "sys":
+            # the system topic accepts any logged-in author without attachment (and without a subscription)
+            if c is None:
+                ok = bool(acks) and not any("seq=" in f for f in acks)      # not loaded: acknowledged by the hub, nothing happens
+                why = "the system topic is not loaded"
+                if ok and not ln.calls and state_of(ln) == state_of(pre):
+                    continue
+            elif c["inactive"]:
+                why = "the topic is suspended or being deleted"
+            else:
+                ok = True
         elif attached and c is not None:
             u = c["users"].get(act[0])
             if c["inactive"]:
@@ -633,7 +648,7 @@ def mon_C03(case):
         faulted = i > 0 and case.ops[i - 1].split(" ")[0] in ("fail", "crash") or (i > 1 and case.ops[i - 2].startswith("fail"))
         if acks and not ok:
             out.append((i, f"C03 publish to {t} by {act[0] if act else '?'} accepted although {why}"))
-        if acks and pre.store.get(t, {}).get("state") == 10:
+        if acks and pre.store.get(t, {}).get("state") == 10 and t != "sys":      # (initTopicSys does not read the state: the record of `sys` is marked along with the p2p topics of a suspended subscriber)
             out.append((i, f"C03 [susp-reload] publish to {t} accepted although the topic is suspended (the account of its owner or of a participant is)"))
         if ok and w[1] in case.logged_out(i):
             # the session has been logged out by the server: 401 is the answer to whatever it sends
@@ -675,8 +690,8 @@ def mon_C06(case):
         pre = prev_state(case, i)
         act = case.actor(w) if w[0] not in ("restart", "unload") and len(w) > 1 else None
         for t, row in ln.store.items():
-            if row["state"] == 20 or t.startswith("P:"):
-                continue               # a peer-to-peer topic has two equal participants and no owner
+            if row["state"] == 20 or t.startswith("P:") or t == "sys":
+                continue               # a peer-to-peer topic has two equal participants and no owner; the system topic has none either
             ow = owners_of(row)
             prow = pre.store.get(t) if pre else None
             pow_ = owners_of(prow) if prow and prow["state"] != 20 else None
@@ -696,7 +711,7 @@ def mon_C06(case):
         if pre is not None and act is not None and len(w) > 2:
             t = w[2]
             prow = pre.store.get(t)
-            if prow is not None and prow["state"] != 20 and not t.startswith("P:"):
+            if prow is not None and prow["state"] != 20 and not t.startswith("P:") and t != "sys":
                 pow_ = owners_of(prow)
                 row = ln.store.get(t)
                 gone = row is None or row["state"] == 20
@@ -824,6 +839,8 @@ def mon_C08(case):
         pre = prev_state(case, i)
         for t, c in ln.cache.items():
             row = ln.store.get(t)
+            if t == "sys":
+                row = dict(row, auth=c["auth"], anon=c["anon"]) if row is not None else None      # (initTopicSys: the default access of `sys` is W/W whatever is stored)
             if c["inactive"]:
                 continue
             if row is None:
@@ -1431,8 +1448,8 @@ def mon_C10_me(case):
             if own is None or not has(eff(own["want"], own["given"]), "P"):
                 continue            # without P on the own `me` nothing is passed on to this user's sessions
             for key, row in ln.store.items():
-                if row["state"] == 20 or key in phantom:
-                    continue
+                if row["state"] == 20 or key in phantom or key == "sys":
+                    continue        # (the system topic makes no announcements)
                 mine = row["subs"].get(ou)
                 if mine is None or mine["deleted"] or not has(eff(mine["want"], mine["given"]), "P") or \
                         not has(eff(mine["want"], mine["given"]), "J"):
